@@ -120,20 +120,6 @@ def f32_exact(l):
     return float(np.float32(v)) == v
 
 
-def drop_lossy_f32(arrays):
-    # TODO(defect): reindex_axis writes the requested labels into the label array of the input's axis
-    # (`newobj.axes[axis][mask] = values[mask]`, _maybe_cast_type looks at the dtype KIND only), so an array whose
-    # labels are float32 gets the new labels rounded to single precision: align([float32-labelled, float64-labelled])
-    # returns axes that are not identical / have a label twice.  Until that is repaired a dimension carries float32
-    # labels only when every label met on it is a float32 number.
-    lossy = set(ax["name"] for a in arrays for ax in a["axes"]
-                if any(l[0] == "n" and not f32_exact(l) for l in ax["labels"]))
-    for a in arrays:
-        for ax in a["axes"]:
-            if ax["name"] in lossy and ax.get("ldtype") == "float32":
-                del ax["ldtype"]
-
-
 def gen_entries(rng, tier="quick"):
     """an align case: the plain stream of gen_arrays, and on modest shares of it the other argument forms the
     statement quantifies over (Datasets, scalars, a tuple, strict=, narrow / unsigned label dtypes, float32 / int32 /
@@ -145,7 +131,6 @@ def gen_entries(rng, tier="quick"):
         for a in arrays:
             if rng.random() < 0.7:
                 gen.dtype_variants(rng, a, p=0.5)
-    drop_lossy_f32(arrays)
     if rng.random() < 0.22:
         for a in arrays:
             if rng.random() < 0.6:
